@@ -703,7 +703,7 @@ func pmMappingRules(c *Ctx, rule string) {
 					if !ok || call.Call.StaticCallee() != sam {
 						continue
 					}
-					okCall = call.Call.Args[1] == ssa.Value(smp.Params[1]) && isLoadOfField(call.Call.Args[2], fDelta)
+					okCall = len(call.Call.Args) >= 3 && call.Call.Args[1] == ssa.Value(smp.Params[1]) && isLoadOfField(call.Call.Args[2], fDelta)
 					// and the value returned after it is seqno + the same delta
 				}
 			}
